@@ -30,12 +30,15 @@ Print Assumptions C15_needs_live_tokens_partial.
 (* success => issued_token_type is access, refresh or id and the response holds a non-empty
    token of that kind (refresh: access token plus refresh token); an access token is stored in
    the resulting state with exactly the client, subject, actor, scopes and audience the storage
-   policy decided, the refresh token is stored too; the scopes answered are the decided ones *)
+   policy decided, the refresh token is stored too; the scopes answered are the decided ones and
+   issued_token_type is the type the storage policy left in the request - for EVERY storage
+   policy (defaulting or not, forcing a type, replacing the subject, emptying the scopes) *)
 Theorem C15_declared_is_contained : forall cl r g nx c subj styp actor req scopes aud s' i x rt lv sc sto,
   wf_clients cl = true ->
   exchange cl r (g, nx) c subj styp actor req scopes aud = (s', OExch i x rt lv sc sto) ->
   let want := C15_spec.decided cl g c subj styp actor scopes aud in
-  sc = drop_scopes scopes /\
+  sc = decided_scopes (policy g) scopes /\
+  i = effective_type (policy g) req /\
   C15_spec.contained want i x rt lv sto = true /\
   (forall t, sto = Some t -> t = want /\ exists n, (x = XOpaque (AT n) (tr_sub want) \/ x = XJwt (AT n) (tr_sub want)) /\
                                    find_tok n (toks (fst s')) = Some t) /\
@@ -43,12 +46,13 @@ Theorem C15_declared_is_contained : forall cl r g nx c subj styp actor req scope
 Proof. exact declared_is_contained. Qed.
 Print Assumptions C15_declared_is_contained.
 
-(* requested type jwt / unknown, storage veto, a subject or actor token that is not a live
+(* a type the provider cannot issue (requested unknown; jwt, a custom type or no type at all after
+   the storage policy had its say), storage veto, a subject or actor token that is not a live
    token of the declared type => an OAuth error (status 400/401/403/500 with an error member),
    never a success *)
 Theorem C15_unissuable_is_error_partial : forall cl r s c subj styp actor req scopes aud,
   op_unconfused (Exchange r c subj styp actor req scopes aud) = true ->
-  C15_spec.issuable req && negb (string_in "veto" scopes) && subj_live (fst s) styp subj && actor_live (fst s) actor = false ->
+  C15_spec.issuable (policy (fst s)) req && negb (string_in "veto" scopes) && subj_live (fst s) styp subj && actor_live (fst s) actor = false ->
   exists st, snd (exchange cl r s c subj styp actor req scopes aud) = OErr st true /\ C15_spec.is_error st = true.
 Proof. exact unissuable_is_error. Qed.
 Print Assumptions C15_unissuable_is_error_partial.
